@@ -105,14 +105,13 @@ func (dm *DMap) prepareEntry(e *env) storage.Entry {
 
 func (dm *DMap) putOnReplicaFragment(e *env) error {
 	part := dm.getPartitionByHKey(e.hkey, partitions.BACKUP)
-	f, err := dm.loadOrCreateFragment(part)
+	f, err := dm.loadOrCreateAndLockFragment(part)
 	if err != nil {
 		return err
 	}
+	defer f.Unlock()
 
 	e.fragment = f
-	f.Lock()
-	defer f.Unlock()
 
 	err = f.storage.PutRaw(e.hkey, e.value)
 	if errors.Is(err, storage.ErrKeyTooLarge) {
@@ -294,15 +293,13 @@ func (dm *DMap) checkPutConditions(e *env) error {
 
 func (dm *DMap) putOnCluster(e *env) error {
 	part := dm.getPartitionByHKey(e.hkey, partitions.PRIMARY)
-	f, err := dm.loadOrCreateFragment(part)
+	f, err := dm.loadOrCreateAndLockFragment(part)
 	if err != nil {
 		return err
 	}
+	defer f.Unlock()
 
 	e.fragment = f
-	verifhook.Point(dm.s.rt.This().Name, "put.before-lock")
-	f.Lock()
-	defer f.Unlock()
 
 	if err = dm.checkPutConditions(e); err != nil {
 		return err
